@@ -945,6 +945,63 @@ func plantInsertRange(t *rapid.T, a, b *State) string {
 	return res
 }
 
+// plantRemarkOnly builds the shape "the only line that the device's ACL
+// and the target's have in common is a remark": every rule of the device's
+// ACL differs from its counterpart in the logging keyword only, so the two
+// ACLs agree on every packet.
+func plantRemarkOnly(t *rapid.T, a, b *State) string {
+	var names []string
+	an := map[string]string{}
+	for _, n := range sortedKeys(b.ACLs) {
+		for _, cand := range []string{n, n + "-DRC-0"} {
+			if a.ACLs[cand] != nil {
+				an[n] = cand
+				names = append(names, n)
+				break
+			}
+		}
+	}
+	if len(names) == 0 {
+		return "noop"
+	}
+	n := rapid.SampledFrom(names).Draw(t, "remarkOnlyACL")
+	common := false
+	for _, e := range b.ACLs[n] {
+		if e.IsRemark {
+			for _, x := range a.ACLs[an[n]] {
+				common = common || x.IsRemark && x.Remark == e.Remark
+			}
+		}
+	}
+	if !common {
+		at := rapid.IntRange(0, 1).Draw(t, "remarkOnlyAt")
+		for _, st := range []struct {
+			s *State
+			n string
+		}{{a, an[n]}, {b, n}} {
+			l := st.s.ACLs[st.n]
+			i := at
+			if i > len(l) {
+				i = len(l)
+			}
+			st.s.ACLs[st.n] = append(l[:i:i], append([]*Entry{{ACE: ACE{IsRemark: true, Remark: "common"}}}, l[i:]...)...)
+		}
+	}
+	for _, e := range a.ACLs[an[n]] {
+		if e.IsRemark {
+			continue
+		}
+		if e.Log == "" {
+			e.Log = "log"
+		} else {
+			e.Log = ""
+		}
+	}
+	renumber(a.ACLs[an[n]])
+	renumber(b.ACLs[n])
+	return "plantRemarkOnly"
+}
+
 type Pair struct {
 	A, B *State
 	Mode string
@@ -1005,6 +1062,9 @@ func GenPair(t *rapid.T, o GenOpts) *Pair {
 	}
 	if p.Mode == "derived" && rapid.IntRange(0, 7).Draw(t, "plant") == 0 {
 		p.Ops = append(p.Ops, plantInsertRange(t, p.A, p.B))
+	}
+	if p.Mode == "derived" && rapid.IntRange(0, 11).Draw(t, "plantRemarkOnly") == 0 {
+		p.Ops = append(p.Ops, plantRemarkOnly(t, p.A, p.B))
 	}
 	for _, i := range p.A.Intfs {
 		if i.In != "" && p.A.ACLs[i.In] == nil {
